@@ -156,6 +156,73 @@ example : ∃ c, exTrack.getCurrent asciiLower exE exS = some c ∧ c.effTs ≤ 
   refine ⟨_, rfl, by decide, ?_⟩
   decide
 
+
+/-! ### tracks built by `add_card` (what every `Memvid` handle holds) -/
+
+/-- `get_cards(e, s)` = the cards whose lower-cased "entity:slot" key equals the query's, newest
+    first — so the three queries range over exactly the slot's cards. -/
+theorem C27_getCards_spec (h : Reachable lower tr)
+    (hfix : ∀ e s, lower (slotKey lower e s) = slotKey lower e s) :
+    tr.getCards lower e s =
+      (tr.cards.filter (fun c => decide (c.key lower = slotKey lower e s))).reverse :=
+  getCards_spec h hfix e s
+
+/-- ties are resolved in favour of the most recently added card -/
+theorem C27_tie_newest (h : Reachable lower tr)
+    (hfix : ∀ e s, lower (slotKey lower e s) = slotKey lower e s) (t : Int) (c : Card)
+    (hat : tr.getAtTime lower e s t = some c) :
+    ∀ d ∈ tr.getCards lower e s, d.isRetracted = false → d.effTs ≤ t → d.effTs = c.effTs → d.id ≤ c.id := by
+  intro d hd hdl hdt hde
+  obtain ⟨pre, post, hsplit, hpre⟩ := C27_tie_first lower tr e s t c hat
+  have hdesc : ((tr.getCards lower e s).filter (fun c => decide (c.effTs ≤ t))).Pairwise
+      (fun a b => b.id < a.id) := List.Pairwise.filter _ (getCards_ids_desc h hfix e s)
+  have hdm : d ∈ pre ++ c :: post := by
+    rw [← hsplit]; simp [List.mem_filter, hd, hdt]
+  rw [hsplit] at hdesc
+  rcases List.mem_append.1 hdm with hp | hp
+  · have := hpre d hp hdl; omega
+  · rcases List.mem_cons.1 hp with rfl | hpost
+    · exact Nat.le_refl _
+    · have h2 := (List.pairwise_append.1 hdesc).2.1
+      rw [List.pairwise_cons] at h2
+      exact Nat.le_of_lt (h2.1 d hpost)
+
+example : Reachable asciiLower exTrack :=
+  Reachable.add _ _ (Reachable.add _ _ (Reachable.add _ _ (Reachable.add _ _ (Reachable.add _ _ Reachable.empty))))
+
+
+/-- the hypothesis `hfix` holds for ASCII lower-casing (the driver's instance) -/
+theorem asciiLower_fix (e s : Bytes) : asciiLower (slotKey asciiLower e s) = slotKey asciiLower e s := by
+  have hb : ∀ c : UInt8, (fun c : UInt8 => if 0x41 ≤ c ∧ c ≤ 0x5A then c + 0x20 else c)
+      ((fun c : UInt8 => if 0x41 ≤ c ∧ c ≤ 0x5A then c + 0x20 else c) c) =
+      (fun c : UInt8 => if 0x41 ≤ c ∧ c ≤ 0x5A then c + 0x20 else c) c := by
+    intro c
+    have h : ∀ n : Fin 256, (fun c : UInt8 => if 0x41 ≤ c ∧ c ≤ 0x5A then c + 0x20 else c)
+        ((fun c : UInt8 => if 0x41 ≤ c ∧ c ≤ 0x5A then c + 0x20 else c) (UInt8.ofNat n.val)) =
+        (fun c : UInt8 => if 0x41 ≤ c ∧ c ≤ 0x5A then c + 0x20 else c) (UInt8.ofNat n.val) := by decide +kernel
+    have := h ⟨c.toNat, c.toNat_lt⟩
+    simpa using this
+  have hidem : ∀ b : Bytes, asciiLower (asciiLower b) = asciiLower b := by
+    intro b
+    unfold asciiLower
+    rw [List.map_map]
+    apply List.map_congr_left
+    intro c _
+    exact hb c
+  unfold slotKey
+  have happ : ∀ a b : Bytes, asciiLower (a ++ COLON :: b) = asciiLower a ++ COLON :: asciiLower b := by
+    intro a b
+    unfold asciiLower
+    rw [List.map_append, List.map_cons]
+    rfl
+  rw [happ, hidem, hidem]
+
+example : exTrack.getCards asciiLower exE exS =
+    (exTrack.cards.filter (fun c => decide (c.key asciiLower = slotKey asciiLower exE exS))).reverse :=
+  C27_getCards_spec asciiLower exTrack exE exS
+    (Reachable.add _ _ (Reachable.add _ _ (Reachable.add _ _ (Reachable.add _ _ (Reachable.add _ _ Reachable.empty)))))
+    asciiLower_fix
+
 /-! ## Part 2 — persistence
 
   `C27_persist_full g l` is the third clause of the property for the commit / open code selected by
